@@ -136,6 +136,9 @@ def _judge_store(ctx: Ctx, c: Collector, fi: FuncInfo, s: Summary, e: Event, tna
         return
     # (a3) explicit comparison with the existing entry
     existing = [("idx", table, key)] + get_forms
+    if e.term[2][0] == "tuple":
+        # a table of (delay, path) entries: the delay component of the existing entry is what is compared
+        existing = existing + [("idx", x, T.const(0)) for x in existing]
     cmp_guards = [g for g in gts if any(T.contains(g, x) for x in existing) or T.contains(g, ("cmp", "notin", key, table)) or T.contains(g, ("cmp", "in", key, table))]
     if cmp_guards:
         # decision table: store iff (absent or new < existing)
@@ -159,6 +162,9 @@ def _judge_store(ctx: Ctx, c: Collector, fi: FuncInfo, s: Summary, e: Event, tna
                     bad.append("a smaller delay does not replace the existing entry")
                 if old_lt and st:
                     bad.append("a larger delay replaces the existing smaller one (the comparison points the wrong way)")
+            if not present_lts and not bad:
+                # only presence is tested, the values are never compared: whoever comes first stays
+                bad.append("an entry is only made when there is none yet: the first registered connection / path wins instead of the minimum (registration-order dependent)")
             if bad:
                 c.bad("store", fi.qualname, construct, "; ".join(sorted(set(bad))), loc)
             else:
